@@ -65,7 +65,7 @@ IsNum(a) == a[1] \in {"i", "q"}
 Lt(a, b) == CASE IsNum(a) -> NumOf(a) * DenOf(b) < NumOf(b) * DenOf(a)
               [] a[1] = "s" -> SeqLt(a[2], b[2])
               [] a[1] = "b" -> (~a[2]) /\ b[2]
-              [] a[1] = "t" -> SeqLt(Tail(a), Tail(b))
+              [] a[1] \in {"t", "d"} -> SeqLt(Tail(a), Tail(b))
 Compare(o, a, b) ==
   IF a = NULL \/ b = NULL THEN NULL
   ELSE LET same == IF IsNum(a) THEN NumOf(a) * DenOf(b) = NumOf(b) * DenOf(a) ELSE a = b IN
@@ -118,12 +118,15 @@ DateTimeLits == [ x \in {"2019-12-31T23:59:59", "2020-02-29T00:00:00", "2021-01-
 FloatLits == [ x \in {"2.0", "0.5", "1.5", "2.5", "-0.5"} |->
                  CASE x = "2.0" -> QV(2, 1) [] x = "0.5" -> QV(1, 2) [] x = "1.5" -> QV(3, 2) [] x = "2.5" -> QV(5, 2)
                    [] x = "-0.5" -> QV(-1, 2) ]
+DateLits == [ x \in {"2020-02-29", "2019-12-31", "2021-01-01"} |->
+                CASE x = "2020-02-29" -> <<"d", 2020, 2, 29>> [] x = "2019-12-31" -> <<"d", 2019, 12, 31>> [] x = "2021-01-01" -> <<"d", 2021, 1, 1>> ]
 LitVal(k, v) == CASE k = "Null" -> NULL
                   [] k = "Integer" -> IV(v)
                   [] k = "Float" -> FloatLits[v]
                   [] k = "String" -> SV(v)
                   [] k = "Boolean" -> BV(v = "true")
                   [] k = "DateTime" -> DateTimeLits[v]
+                  [] k = "Date" -> DateLits[v]
 
 \* ------------------------------------------------------------------ evaluation
 IsNullLit(t) == t[1] = "Lit" /\ t[2] = "Null"
@@ -139,6 +142,16 @@ ApplyFn(f, vals, patLit) ==
     [] f = "substring" -> LET i == vals[2]
                               k == IF Len(vals) = 3 THEN vals[3] ELSE IV(-1)
                           IN IF a = NULL \/ i = NULL \/ k = NULL THEN NULL ELSE SV(Substr(a[2], i[2], k[2]))
+    [] f \in {"round", "floor", "ceiling"} ->
+         IF a = NULL THEN NULL
+         ELSE LET pn == NumOf(a)  qd == DenOf(a)
+                  r == CASE f = "floor" -> pn \div qd
+                         [] f = "ceiling" -> -((-pn) \div qd)
+                         [] f = "round" -> IF "round_trunc_plus_half" \in Deviations
+                                           THEN Tdiv(2 * pn + qd, 2 * qd)                          \* TRUNC(x + 0.5)
+                                           ELSE Sgn(pn) * ((2 * Abs(pn) + qd) \div (2 * qd))        \* midpoint away from zero
+              IN IF a[1] = "i" THEN IV(r) ELSE QV(r, 1)
+    [] f = "date"   -> IF a = NULL THEN NULL ELSE <<"d", a[2], a[3], a[4]>>
     [] f = "year"   -> IF a = NULL THEN NULL ELSE IV(a[2])
     [] f = "month"  -> IF a = NULL THEN NULL ELSE IV(a[3])
     [] f = "day"    -> IF a = NULL THEN NULL ELSE IV(a[4])
